@@ -833,9 +833,8 @@ class C05(Property):
 
         def half(o):
             s = 'out=%s calls=%d dest=%s part=%s' % (outc(o['out']), o['calls'], f(o['dest']), f(o['part']))
-            # the successful events with an effect, in order (a failing close() that closed is one)
-            evs = ['x' if t[0] == 'X' else t for t in (o.get('trace') or []) if t[0] not in 'AF' and t != 'n']
-            s += ' tr=' + (','.join(evs) or '-')
+            # the whole observed trace (without the `:<event>` annotation of natural failures)
+            s += ' obs=' + (','.join(t.split(':')[0] if t[0] == 'F' else t for t in (o.get('trace') or [])) or '-')
             if o['extra']:
                 s += ' extra=' + ','.join(o['extra'])
             return s
